@@ -13,7 +13,8 @@ import (
 )
 
 var schedScalarClasses = []string{"zero", "two", "three", "minus_one", "minus_two", "pow2", "pow2_255", "top_bit_set",
-	"sparse", "dense", "small", "half_up", "limb_pattern", "random", "random", "random"}
+	"sparse", "dense", "small", "half_up", "limb_pattern", "random", "random", "random", "curve_constant", "curve_constant",
+	"mont_window", "word_structure", "near_n", "mont_near_const"}
 
 func genC19(m *M, nPoints, nScalars int) {
 	var seq []int
@@ -43,20 +44,35 @@ func genC19(m *M, nPoints, nScalars int) {
 			if v.Cmp(big.NewInt(1)) == 0 {
 				v = big.NewInt(2) // k = 1 is the one documented shortcut
 			}
-			m.class("scalar:" + sc)
-			s := secp256k1.NewScalar()
-			setScalar(s, v)
-			e := base.Copy()
-			seq = seq[:0]
-			field.VerifTraceHook, scalar.VerifTraceHook = hook, hook
-			e.Multiply(s)
-			field.VerifTraceHook, scalar.VerifTraceHook = nil, nil
-			var sb strings.Builder
-			jsonVal(&sb, []kv{{"op", "Sched"}, {"point", p + 1}, {"pclass", cls}, {"sclass", sc}, {"k", be32(v)}, {"n", len(seq)}, {"seq", append([]int{}, seq...)}})
-			m.w.WriteString(sb.String())
-			m.w.WriteByte('\n')
-			m.events++
-			m.inShard++
+			// the call, and sometimes the SAME call again (same scalar, same point in the same representation) straight
+			// away or after one other call: the schedule may not depend on what was multiplied before either
+			reps := []string{""}
+			switch k % 4 {
+			case 1:
+				reps = []string{"", "+repeated"}
+			case 3:
+				reps = []string{"", "other", "+after_another"}
+			}
+			for _, rep := range reps {
+				vv, scc := v, sc+rep
+				if rep == "other" {
+					vv, scc = m.scalarOf("random"), "random"
+				}
+				m.class("scalar:" + scc)
+				s := secp256k1.NewScalar()
+				setScalar(s, vv)
+				e := base.Copy()
+				seq = seq[:0]
+				field.VerifTraceHook, scalar.VerifTraceHook = hook, hook
+				e.Multiply(s)
+				field.VerifTraceHook, scalar.VerifTraceHook = nil, nil
+				var sb strings.Builder
+				jsonVal(&sb, []kv{{"op", "Sched"}, {"point", p + 1}, {"pclass", cls}, {"sclass", scc}, {"k", be32(vv)}, {"n", len(seq)}, {"seq", append([]int{}, seq...)}})
+				m.w.WriteString(sb.String())
+				m.w.WriteByte('\n')
+				m.events++
+				m.inShard++
+			}
 		}
 	}
 }
@@ -64,6 +80,6 @@ func genC19(m *M, nPoints, nScalars int) {
 func init() {
 	gens["C19"] = func(m *M, pick func(q, t int) int, shards int) {
 		m.perFile = 1 // one point per trace file
-		genC19(m, pick(2, 8), pick(12, 80))
+		genC19(m, pick(4, 8), pick(22, 88))
 	}
 }
